@@ -153,6 +153,14 @@ Theorem C17_rate_rows_are_model_ops :
 Proof. apply rows_are_rate_ops. vm_compute. reflexivity. Qed.
 Print Assumptions C17_rate_rows_are_model_ops.
 
+(* ---- the refusals of Readout.__init__ found in the source accept exactly the schedules of valid_schedule
+   (used by every theorem above): non-empty, first time non-zero, start < first time, strictly increasing *)
+Theorem C17_readout_guards_are_valid_schedule :
+  forall (start : Q) (ts : list Q),
+  accepted readout_empty_refused readout_guards start ts = valid_schedule start ts.
+Proof. apply accepted_is_valid_schedule. vm_compute. reflexivity. Qed.
+Print Assumptions C17_readout_guards_are_valid_schedule.
+
 (* ---- non-vacuity: the table has deterministic rows; a concrete expression of the shape found in load_image
    (ADU -> photon conversion) is linear with the expected rate, and the ways of getting it wrong are rejected:
    the step forgotten in one branch, the clock used instead of the step, the step squared, a floor on the step *)
@@ -170,5 +178,8 @@ Example C17_rows_nonvacuous :
   lin (TMul (TVar "rate") (TBad BClock "detector.time")) = false /\
   lin (TMul (TMul (TVar "rate") TStep) TStep) = false /\
   lin (TMul (TVar "rate") (TBad BNonlin "max(step, 0.25)")) = false /\
-  lin (TAdd (TMul (TVar "rate") TStep) (TVar "offset")) = false.
+  lin (TAdd (TMul (TVar "rate") TStep) (TVar "offset")) = false /\
+  (* dropping a guard is noticed: without the monotonicity check a decreasing schedule would be accepted *)
+  guards_complete true [GFirstZero; GStartGeFirst] = false /\
+  accepted true [GFirstZero; GStartGeFirst] 0 [2; 1] = true /\ valid_schedule 0 [2; 1] = false.
 Proof. vm_compute. repeat split; reflexivity. Qed.
